@@ -21,7 +21,13 @@ inductive Tok where
   | lit (b : UInt8)
   | param (n : Bytes)
   | catchAll (n : Bytes)
-deriving DecidableEq, Repr, Inhabited, BEq
+deriving DecidableEq, Repr, Inhabited
+
+/-- `==` on tokens is decidable equality (so that it is lawful) -/
+instance : BEq Tok := ⟨fun a b => decide (a = b)⟩
+instance : LawfulBEq Tok where
+  eq_of_beq := by intro a b h; exact of_decide_eq_true h
+  rfl := by intro a; exact decide_eq_true rfl
 
 abbrev Binds := List (Bytes × Bytes)
 
